@@ -227,6 +227,9 @@ class ThreadBuilder:
             op = dict(n.op)
             if fname == "set_global" and op["kind"] == "ATOMIC" and op["op"] == "store" and op.get("loc") == "latest":
                 op["ghost"] = dict(resp=(o, 2, op["ints"][0]))        # the generation this write published
+            if op["kind"] == "ATOMIC" and op["op"] == "store" and str(op.get("loc", "")).startswith("reg") and op["ints"][0] >= 2:
+                # history flag for the known finding: an outdated copy is installed (latest generation already differs)
+                op["ghost"] = dict(stale_install=op["ints"][0] - 2)
             remap[n.id] = self.new_node(op)
         cont = {}
 
@@ -271,9 +274,10 @@ QUICK = [
     (1, ["ready0"], [["set"], ["set"], [("read", 0)]], 40, 60),
     (2, ["ready0", "none"], [["set"], [("read", 0)], [("read", 1)]], 34, 40),
     (1, ["ready0"], [["set", "set"], [("read", 0), ("read", 0)]], 40, 60),
+    # exhibits the known finding (own write not observed behind a reader's outdated install): 21 steps
+    (1, ["none"], [["set", ("read", 0)], [("read", 0)]], 28, 44),
 ]
 THOROUGH = QUICK + [
-    (1, ["none"], [["set", ("read", 0)], [("read", 0)]], 40, 44),
     (1, ["none"], [["set"], [("read", 0)], [("read", 0)]], 36, 40),
     (1, ["none"], [["set", "set"], [("read", 0), ("read", 0)]], 40, 56),
     (1, ["ready0"], [["set", ("read", 0)], ["set"], [("read", 0)]], 40, 48),
